@@ -377,6 +377,17 @@ class Program:
                 if isinstance(fn, ast.Name) and fn.id in ("abs", "round", "int", "float", "len", "min", "max"):
                     return {"abs": abs, "round": round, "int": int, "float": float, "len": len,
                             "min": min, "max": max}[fn.id](*args)
+                # a module-level helper that is a single `return <expression of its parameters>`
+                if isinstance(fn, ast.Name) and fn.id in mod.funcs and depth < 6:
+                    h = mod.funcs[fn.id]
+                    body = [st for st in h.node.body if not (isinstance(st, ast.Expr) and isinstance(st.value, ast.Constant))]
+                    if len(body) == 1 and isinstance(body[0], ast.Return) and body[0].value is not None and len(args) <= len(h.params) and not h.vararg and not h.kwarg:
+                        env2 = dict(zip(h.params, args))
+                        for p_, d_ in h.defaults.items():
+                            if p_ not in env2:
+                                env2[p_] = self.const_eval(d_, mod, None, depth + 1)
+                        if all(p_ in env2 for p_ in h.params):
+                            return self.const_eval(body[0].value, mod, env2, depth + 1)
             except (ArithmeticError, TypeError, ValueError) as e:
                 raise NotConst(str(e))
             raise NotConst("call")
